@@ -69,16 +69,12 @@ LinFrom(ops, open, st, closedAtEnd) ==
 
 Linearizable(o) == LinFrom(o.ops, DOMAIN o.ops, Init(o), {o.closed[i] : i \in DOMAIN o.closed})
 
-\* readable facts for the verdict when the search fails
+\* a readable fact next to the search result (a double hand-out has no such simple form: whether two Gets of one
+\* connection are legal depends on where a put-back can be ordered, which is exactly what the search decides)
 Gets(o) == {i \in DOMAIN o.ops : o.ops[i].k = "get" /\ o.ops[i].c # 0}
-\* the same connection came out of two Gets although nobody put it back in between (by real time)
-DoubleHandOut(o) ==
-  \E i, j \in Gets(o) : i # j /\ o.ops[i].c = o.ops[j].c /\ o.ops[i].inv < o.ops[j].inv
-     /\ ~\E p \in DOMAIN o.ops : o.ops[p].k = "put" /\ o.ops[p].c = o.ops[i].c /\ o.ops[p].inv > o.ops[i].inv /\ o.ops[p].inv < o.ops[j].ret
 StaleReturned(o) == o.regime = "stale" /\ \E i \in Gets(o) : o.ops[i].c \in {o.primed[k] : k \in DOMAIN o.primed}
 
 Check(c, o) ==
-  (IF DoubleHandOut(o) THEN <<"Exclusive_concurrent">> ELSE <<>>)
-  \o (IF StaleReturned(o) THEN <<"NoStaleReturn_concurrent">> ELSE <<>>)
+  (IF StaleReturned(o) THEN <<"NoStaleReturn_concurrent">> ELSE <<>>)
   \o (IF ~Linearizable(o) THEN <<"PoolNotLinearizable">> ELSE <<>>)
 =============================================================================
